@@ -208,10 +208,20 @@ func (area) Generate(r *rng.R, thorough bool, index int) json.RawMessage {
 		n = 60 + r.Intn(120)
 	}
 	vanished := make([]bool, 3)
+	needReg := make([]bool, 3) // the client (probably) has no session
 	for c := 0; c < nclients; c++ {
 		if r.Chance(92) {
 			h.Ops = append(h.Ops, hop{K: "solo", C: c, What: "exid"})
 			h.Ops = append(h.Ops, hop{K: "solo", C: c, What: "cs"})
+		} else {
+			needReg[c] = true
+		}
+	}
+	// Most histories start with some files in place.
+	for f := 0; f < 3; f++ {
+		if r.Chance(60) {
+			c := r.Intn(nclients)
+			h.Ops = append(h.Ops, hop{K: "seq", C: c, Mode: "next", Cache: r.Chance(50), Ops: []cop{{O: "putroot"}, {O: "open", Ow: r.Intn(3), F: 1 + f, Acc: uint32(1 + r.Intn(3)), How: 1, Claim: "null"}}})
 		}
 	}
 	for i := 0; i < n; i++ {
@@ -219,11 +229,19 @@ func (area) Generate(r *rng.R, thorough bool, index int) json.RawMessage {
 		if vanished[c] && r.Chance(85) {
 			c = r.Intn(nclients)
 		}
+		if needReg[c] && !vanished[c] && r.Chance(70) {
+			needReg[c] = false
+			h.Ops = append(h.Ops, hop{K: "solo", C: c, What: "exid"})
+			h.Ops = append(h.Ops, hop{K: "solo", C: c, What: "cs"})
+		}
 		switch x := r.Intn(100); {
 		case x < 4:
 			h.Ops = append(h.Ops, hop{K: "adv", D: uint64(1 + r.Intn(int(h.Lease)/2))})
 		case x < 6:
 			h.Ops = append(h.Ops, hop{K: "adv", D: h.Lease + 1 + uint64(r.Intn(int(h.Lease)))})
+			for k := range needReg {
+				needReg[k] = true
+			}
 		case x < 7:
 			vanished[c] = true
 		case x < 9:
@@ -232,10 +250,15 @@ func (area) Generate(r *rng.R, thorough bool, index int) json.RawMessage {
 			h.Ops = append(h.Ops, hop{K: "solo", C: c, What: "exid", Ver: 1})
 			if r.Chance(85) {
 				h.Ops = append(h.Ops, hop{K: "solo", C: c, What: "cs"})
+			} else {
+				needReg[c] = true
 			}
 		case x < 15:
 			w := pick(r, "exid", "cs", "cs", "cs", "ds", "dc", "bind", "bindbad", "notonly", "notinsess", "minor", "empty")
 			h.Ops = append(h.Ops, hop{K: "solo", C: c, What: w, SeqD: pick(r, 0, 0, -1, -1, 3), Sess: r.Intn(4) - 1})
+			if w == "ds" || w == "dc" {
+				needReg[c] = true
+			}
 		case x < 27:
 			h.Ops = append(h.Ops, hop{K: "resume", T: r.Intn(4)})
 		default:
@@ -264,6 +287,11 @@ func (area) Generate(r *rng.R, thorough bool, index int) json.RawMessage {
 				k := r.Intn(3)
 				for j := 0; j <= k; j++ {
 					o.Plan = append(o.Plan, j == k || r.Chance(25))
+				}
+			}
+			for _, x := range o.Ops {
+				if x.O == "ds" || x.O == "dc" || (x.O == "exid" && x.Ver != 0) {
+					needReg[x.C%3] = true
 				}
 			}
 			h.Ops = append(h.Ops, o)
